@@ -53,6 +53,11 @@ def write_templates(W, lens, sym_int):
     # constants containing the bytes that have their own spelling in the assembly (write emits exactly that byte)
     T('const-escapes', "const byte[] cb = ['\\0', '\\t', '\\n', '\\r', '\\'', '\"', '\\\\', '\\x7f', '\\xff', ' '];\nempty @is_you(int x) { write('\\r'); write('\\n'); write('\\t'); write('\\0'); write('\\''); write('\"'); write('\\\\'); write('\\x0d'); "
       "write(\"a\\rb\\nc\\td\\0e'f\\\"g\\\\h\\x0d\\x7f\\xff\"); write(cb); writeln(\"\\r\"); writeln('\\r'); byte[] mb = ['\\r', '\\n']; write(mb); write(\"\\r\\n\" is byte[]); }\n")
+    # lengths around the byte boundary of the length word (the length is a word, not a byte)
+    if W == 2:
+        for n in (255, 256, 257, 300):
+            T('global-bytes-long-%d' % n, "byte big[%d];\nempty @is_you(int x) { for (int i = 0; i < %d; i += 1) { big[i] = (x + i) is byte; } write(big); write('|'); sleep(big.length); }\n" % (n, n))
+        T('const-bytes-long-300', "empty @is_you(int x) { write(\"%s\"); write('|'); write(\"%s\" is byte[]); writeln(x is byte); }\n" % ('0123456789' * 30, 'abcdefghij' * 26))
     T('global-bytes', "byte[] gb = [1, 2, 3];\nconst byte[] cb = ['x', 'y'];\nempty @is_you(byte v) { gb[1] = v; write(gb); write(cb); writeln(\"lit\"); write(\"\"); }\n")
     T('string-caller', "empty @is_you(string s, int y) { int a = y; byte[] bs = [1, 2, 3]; write(s); sleep(a); write(bs); write(\"const\"); sleep(a); }\n", s=[3])
     return out
@@ -197,7 +202,7 @@ def main():
     lens = [0, 1, 2, 3, 8] if quick else [0, 1, 2, 3, 5, 8, 16, 33, 64]
     tasks = []
     for c in write_templates(2, lens, True):
-        tasks.append(case_to_task(c.with_(stack=120), max_steps=20000, vm_wall=300))
+        tasks.append(case_to_task(c.with_(stack=120), max_steps=40000 if 'long' in c.name else 20000, vm_wall=300, ri_max_loop=400 if 'long' in c.name else 64))
     for W in ([3, 4] if quick else [3, 4, 8]):
         for c in write_templates(W, lens[:4] if quick else lens, sym_int=(W == 3 and not quick)):
             tasks.append(case_to_task(c.with_(stack=120), max_steps=20000, vm_wall=1500 if not quick else 300))
